@@ -47,6 +47,7 @@ type Config struct {
 	UIDValidityGen     func() imap.UIDValidityGenerator
 	StoreFaults        bool // wrap the store builder with the fault-injecting store
 	DBClient           func() db.ClientInterface
+	DBFaults           bool // wrap the default database client with FaultDB (w.DB)
 	Dir                string // base directory for this run (data+db dirs are created inside)
 	UUIDSeed           uint64
 	Trace              bool
@@ -71,6 +72,7 @@ type World struct {
 	DataDir string
 	DBDir   string
 	Store   *FaultStoreBuilder
+	DB      *FaultDB
 	ctx     context.Context
 	cancel  context.CancelFunc
 	boots   int
@@ -183,6 +185,12 @@ func (w *World) options() []gluon.Option {
 	}
 	if w.Cfg.DBClient != nil {
 		opts = append(opts, gluon.WithDBClient(w.Cfg.DBClient()))
+	} else if w.Cfg.DBFaults {
+		if w.DB == nil {
+			w.DB = &FaultDB{}
+		}
+		w.DB.Inner = gluon.VerifDefaultDBClientInterface()
+		opts = append(opts, gluon.WithDBClient(w.DB))
 	}
 	return opts
 }
